@@ -91,7 +91,27 @@ func (f *Frame) syntacticModObjs(blocks map[*ssa.BasicBlock]bool, st *State) []s
 				}
 				w := f.callWrites(cc)
 				if w.All || len(w.Heaps) > 0 {
-					unknown = true
+					// a callee under a framed contract without a modifies clause
+					// changes no pre-existing object (its frame obligations are
+					// verified, or it is an assumed contract)
+					framedNoMods := false
+					if cc.IsInvoke() {
+						if ic := f.eng.ifaceContract(cc); ic != nil && !ic.WritesAll && len(ic.Modifies) == 0 && !ic.NoFrame {
+							framedNoMods = true
+						}
+					} else if callee := cc.StaticCallee(); callee != nil {
+						if fc := f.eng.contractFor(callee); fc != nil && !fc.Inline && !fc.NoFrame && !fc.WritesAll && len(fc.Modifies) == 0 {
+							framedNoMods = true
+							if !fc.SpecOnly && !fc.Trusted {
+								f.top.usedContracts[FuncName(callee)] = true
+							}
+						} else if fc == nil && f.eng.freshOnly(f.ctx, callee) {
+							framedNoMods = true
+						}
+					}
+					if !framedNoMods {
+						unknown = true
+					}
 				}
 			}
 		}
@@ -272,6 +292,7 @@ func (f *Frame) execInstr(in ssa.Instruction, reach string, st *State) {
 				}
 			}
 		}
+		f.guardCheck(x.Addr, "write of", x.Pos(), reach, st)
 		f.storeFrameAt(x.Pos(), f.srcTextOr(x.Pos(), "store"), "(pobj "+addr+")", addr, "", reach)
 		f.store(st, addr, x.Val.Type(), f.val(x.Val))
 	case *ssa.TypeAssert:
@@ -612,6 +633,7 @@ func (f *Frame) unop(x *ssa.UnOp, reach string, st *State) {
 		default:
 			f.oblig("nil-deref", x.Pos(), f.srcTextOr(x.Pos(), "*"+x.X.Name()), reach, Not(Eq(addr, "nil")))
 		}
+		f.guardCheck(x.X, "read of", x.Pos(), reach, st)
 		hint := x.Name()
 		f.vals[x] = f.loadVal(st, addr, x.Type(), hint)
 	case token.NOT:
